@@ -3,8 +3,9 @@ import AutoVerif.Spec.C04
 open Lean AutoVerif.Codec
 namespace AutoVerif.C04
 
+/-- the off-chain configuration as the plugin sees it: the wire values run through `ensureMinimumDefaults` -/
 def cfgOf (j : Json) : R Cfg := do
-  pure { batch := ← natF j "batch", gasLimit := ← natF j "gasLimit", overhead := ← natF j "overhead" }
+  pure (ensureDefaults (← intF j "batch") (← natF j "gasLimit") (← natF j "overhead"))
 
 def handle (input impl : Json) : R Reply := do
   let cfg ← cfgOf (← field input "cfg")
@@ -18,7 +19,8 @@ def handle (input impl : Json) : R Reply := do
     (if want.length > 1 then ["multi-report"] else []) ++
     (if agreed.any (fun r => decide (r.gas + cfg.overhead > cfg.gasLimit)) then ["over-limit-item"] else []) ++
     (if !decide ((agreed.map (·.upkeepID)).Nodup) then ["repeated-upkeep"] else []) ++
-    (if want.any (fun r => decide (r.length = cfg.batch)) then ["full-batch"] else [])
+    (if want.any (fun r => decide (r.length = cfg.batch)) then ["full-batch"] else []) ++
+    (if decide (cfg.overhead = 300000) || decide (cfg.gasLimit = 5300000) then ["config-default-applied"] else [])
   pure { agree := agree, specModel := sm, specImpl := si,
          diff := if agree then "" else s!"model={want.map (·.map showResult)} impl={got.map (·.map showResult)}",
          fail := if si then "" else explain cfg agreed got,
